@@ -221,11 +221,13 @@ enum { FAM_LOCALP = 0, FAM_WAVELET, FAM_SEQUENCE, FAM_GLOBAL, FAM_FOURIER, NFAM 
 static const char *famname[] = {"localp", "wavelet", "sequence", "global", "fourier"};
 struct Scn {
     int fam = 0, budget = 6, batch = 1, parallel = 0;
+    int rjobs = 0;   // > 0: the RESTART runs in parallel mode with this many worker threads (the run that is killed stays sequential and deterministic: its event log defines the
+                     // kill points); what is checked about the restart - nothing acknowledged is recomputed, the budget holds, the final surrogate interpolates - has to hold for every schedule
     int depth0 = 0;  // > 0: depth of the initial grid (Global / Fourier): its tensors then hold several points beyond the lower tensors, which the reader of the construction data has to re-associate
     int preload = 0; // > 0: the grid handed to constructSurrogate is a local polynomial grid of this depth with all its values loaded (>= 1000 points:
                      // constructSurrogate then keeps new samples in its CompleteStorage, so the checkpoints carry a non-empty sample store); budget = additional samples
-    std::string name() const{ return std::string(famname[fam]) + "/budget" + std::to_string(budget) + "/batch" + std::to_string(batch) + (parallel ? "/parallel1" : "/sequential") + (preload ? "/preloaded" + std::to_string(preload) : "") + (depth0 ? "/depth" + std::to_string(depth0) : ""); }
-    vf::J json() const{ vf::J j; j.s("fam", famname[fam]).i("budget", budget).i("batch", batch).i("parallel", parallel).i("preload", preload).i("depth0", depth0); return j; }
+    std::string name() const{ return std::string(famname[fam]) + "/budget" + std::to_string(budget) + "/batch" + std::to_string(batch) + (parallel ? "/parallel1" : "/sequential") + (preload ? "/preloaded" + std::to_string(preload) : "") + (depth0 ? "/depth" + std::to_string(depth0) : "") + (rjobs ? "/restart-parallel" + std::to_string(rjobs) : ""); }
+    vf::J json() const{ vf::J j; j.s("fam", famname[fam]).i("budget", budget).i("batch", batch).i("parallel", parallel).i("preload", preload).i("depth0", depth0).i("rjobs", rjobs); return j; }
 };
 static const int DIMS = 2;
 static const int PRELOAD_DEPTH = 8;
@@ -245,21 +247,22 @@ static void make_grid(TasmanianSparseGrid &g, const Scn &s){
         default:           g.makeFourierGrid(DIMS, 1, s.depth0 ? s.depth0 : 1, type_level); break;
     }
 }
+static size_t g_jobs = 1; // worker threads of the parallel mode (1 except for the parallel restarts)
 template<bool par> static void construct_t(const Scn &s, TasmanianSparseGrid &g, ModelSignature m, const std::string &fn){
     size_t budget = (size_t) s.budget + (size_t) g.getNumLoaded(), batch = (size_t) s.batch; // the budget counts the points the grid already has
     switch(s.fam){
         case FAM_LOCALP: case FAM_WAVELET:
-            constructSurrogate<par, no_initial_guess>(m, budget, 1, batch, g, 1.E-6, refine_classic, -1, std::vector<int>(), fn); break;
+            constructSurrogate<par, no_initial_guess>(m, budget, g_jobs, batch, g, 1.E-6, refine_classic, -1, std::vector<int>(), fn); break;
         case FAM_SEQUENCE:  // user supplied anisotropic weights
-            constructSurrogate<par, no_initial_guess>(m, budget, 1, batch, g, type_iptotal, std::vector<int>{1, 2}, std::vector<int>(), fn); break;
+            constructSurrogate<par, no_initial_guess>(m, budget, g_jobs, batch, g, type_iptotal, std::vector<int>{1, 2}, std::vector<int>(), fn); break;
         case FAM_GLOBAL:    // anisotropy estimated from output 0
-            constructSurrogate<par, no_initial_guess>(m, budget, 1, batch, g, type_iptotal, 0, std::vector<int>(), fn); break;
+            constructSurrogate<par, no_initial_guess>(m, budget, g_jobs, batch, g, type_iptotal, 0, std::vector<int>(), fn); break;
         default:
-            constructSurrogate<par, no_initial_guess>(m, budget, 1, batch, g, type_iptotal, std::vector<int>{1, 1}, std::vector<int>(), fn); break;
+            constructSurrogate<par, no_initial_guess>(m, budget, g_jobs, batch, g, type_iptotal, std::vector<int>{1, 1}, std::vector<int>(), fn); break;
     }
 }
 static void construct(const Scn &s, TasmanianSparseGrid &g, ModelSignature m, const std::string &fn){
-    if (s.parallel) construct_t<mode_parallel>(s, g, m, fn); else construct_t<mode_sequential>(s, g, m, fn);
+    if (s.parallel || g_jobs > 1) construct_t<mode_parallel>(s, g, m, fn); else construct_t<mode_sequential>(s, g, m, fn);
 }
 
 typedef std::vector<long long> Key; // a point, coordinates rounded to 1e-12
@@ -318,6 +321,7 @@ static void child_run(const Scn &s, int mode, int fd, const std::vector<fs::Ev> 
         for(size_t i=0;i<n;i++) y[i] = model_value(s.fam, &x[i * DIMS]);
     };
     TasmanianSparseGrid g; make_grid(g, s);
+    g_jobs = (mode == 2 && s.rjobs > 0) ? (size_t) s.rjobs : 1;
     if (mode == 0) vf::wr(fd, "G " + std::to_string(g.getNumLoaded()) + "\n");
     std::string xt, xw;
     fs::active = true;
@@ -595,6 +599,10 @@ static std::vector<Scn> scenarios(const std::string &tier){
         // the only way to a NON-EMPTY sample store in the checkpoint: a grid that already holds >= 1000 points (quick: batch 1 only, reduced torn offsets)
         if (budget == 6) for(int batch : (th ? std::vector<int>{1, 2} : std::vector<int>{1})){ Scn s; s.fam = FAM_LOCALP; s.budget = 4; s.batch = batch; s.preload = PRELOAD_DEPTH; v.push_back(s); }
     }
+    // parallel restarts (the remaining budget is then smaller than workers x batch near the end of the run)
+    { Scn s; s.fam = FAM_SEQUENCE; s.budget = 12; s.batch = 1; s.rjobs = 4; v.push_back(s); }
+    { Scn s; s.fam = FAM_LOCALP; s.budget = 6; s.batch = 2; s.rjobs = 2; v.push_back(s); }
+    if (th){ { Scn s; s.fam = FAM_GLOBAL; s.budget = 12; s.batch = 2; s.rjobs = 3; v.push_back(s); } { Scn s; s.fam = FAM_WAVELET; s.budget = 12; s.batch = 1; s.rjobs = 4; v.push_back(s); } }
     // deeper initial grids: initial tensors with four and more points of their own, a restart in the middle of such a tensor
     { Scn s; s.fam = FAM_GLOBAL; s.budget = 16; s.batch = 1; s.depth0 = 2; v.push_back(s); }
     if (th){ { Scn s; s.fam = FAM_FOURIER; s.budget = 24; s.batch = 1; s.depth0 = 2; v.push_back(s); } { Scn s; s.fam = FAM_GLOBAL; s.budget = 16; s.batch = 2; s.depth0 = 2; v.push_back(s); } }
@@ -627,7 +635,7 @@ int main(int argc, char **argv){
     if (A.has("--replay")){
         std::string v = vf::slurp(A.get("--replay")), cs = vf::jget(v, "case"); Scn s; std::string fam = vf::jget(cs, "fam");
         for(int f=0; f<NFAM; f++) if (fam == famname[f]) s.fam = f;
-        s.budget = atoi(vf::jget(cs, "budget").c_str()); s.batch = atoi(vf::jget(cs, "batch").c_str()); s.parallel = atoi(vf::jget(cs, "parallel").c_str()); s.preload = atoi(vf::jget(cs, "preload").c_str()); s.depth0 = atoi(vf::jget(cs, "depth0").c_str());
+        s.budget = atoi(vf::jget(cs, "budget").c_str()); s.batch = atoi(vf::jget(cs, "batch").c_str()); s.parallel = atoi(vf::jget(cs, "parallel").c_str()); s.preload = atoi(vf::jget(cs, "preload").c_str()); s.depth0 = atoi(vf::jget(cs, "depth0").c_str()); s.rjobs = atoi(vf::jget(cs, "rjobs").c_str());
         KP kp{atol(vf::jget(cs, "k").c_str()), atol(vf::jget(cs, "b").c_str())};
         set_worker_dir(); Ref R = reference_run(s);
         if (!R.ok){ vf::emit(vf::J().s("t","error").s("what", R.err)); cleanup(); return 0; }
